@@ -1,7 +1,9 @@
 import Toq.Proofs.Exclusion
+import Toq.Proofs.ExclusionFamilies
+import Toq.Proofs.ExclusionCompact
 /-!
-# C11 — quantum state exclusion: weak duality, soundness of the certificate checkers, elementary bounds,
-unitary invariance and the characterisation of antidistinguishability
+# C11 — quantum state exclusion: the optimisation problems, their certificate checkers, the value as a true minimum,
+closed forms and explicit optimal points for families, antidistinguishability, and what the code does around the solve
 
 The optimisation problems are stated over `Matrix (Fin d) (Fin d) ℂ` with Mathlib's `Matrix.PosSemidef`.
 The executable checkers (`Toq.Model.Exclusion`) work over exact Gaussian rationals; `EMat.toM` is the
@@ -13,7 +15,21 @@ denotation of an exact matrix, `Rat.cast` that of an exact number.
 * unambiguous exclusion (toqito `strategy="unambiguous"`), `σ_i = p_i ρ_i`, `S = Σ_i σ_i`: minimise
   `Re tr(S (1 − Σ_i M_i))` subject to `M_i ⪰ 0`, `1 − Σ_i M_i ⪰ 0`, `tr(σ_i M_i) = 0`; dual: maximise
   `1 − Re tr N` subject to `N ⪰ 0`, `N + a_i σ_i − S ⪰ 0` (`a_i` real);
-* `is_antidistinguishable` / `common_quantum_overlap` call the min-error dual with all weights `p_i = 1`.
+* `is_antidistinguishable` / `common_quantum_overlap` call the min-error dual with all weights `p_i = 1` and
+  post-process the value (`antidistTest`, `cqoPost`).
+
+Contents: weak duality and soundness of the four checkers (`check…_sound`, ∀/∃ form); the duality gap and complementary
+slackness (`excl_primal_eq_dual_iff`, `excl_optimal_of_slackness`); the minimum is attained (`excl_min_attained`, compactness)
+and is `0` exactly for antidistinguishable sets, positive otherwise (`antidist_iff_min_eq_zero`, `excl_pos_of_not_antidist`);
+bounds, invariances (unitary, relabelling), monotonicity under adding a state, concavity in the prior; explicit optima for
+families of all sizes: an orthogonal pair, projector frames (trine, BB84, Bell), identical states, two states (closed form
+`½ tr − ½‖·‖₁`, antidistinguishable iff orthogonal), `trine()`, `pusey_barrett_rudolph(1, θ)` and `(2, θ)` for every angle of the
+antidistinguishable range; the unambiguous value dominates the conclusive one; the arithmetic after the solve.
+
+Not proved (cited / certified per instance by the checkers): strong duality for *every* ensemble (it holds by Slater's
+condition – `Y = −1` is strictly feasible; per instance the harness certifies `lo ≤ value ≤ hi` with `hi − lo ≤ 10⁻⁴`, and
+`excl_optimal_of_slackness` turns any exactly slack pair into a proof); PBR states for `n = 2` *below* the threshold angle and for
+`n ≥ 3` (certified per instance).
 -/
 
 open Matrix
@@ -245,6 +261,576 @@ theorem unamb_excl_weak_duality_normalised (σ : Fin k → Matrix (Fin d) (Fin d
   rw [hS] at this
   simpa using this
 
+/-! ## The set of attained values; the minimum exists -/
+
+/-- the exclusion values attained by measurements on the ensemble `(ρ, p)`; the minimum-error exclusion
+value is the least element of this set -/
+def exclValues (ρ : Fin k → Matrix (Fin d) (Fin d) ℂ) (p : Fin k → ℝ) : Set ℝ :=
+  {v | ∃ M : Fin k → Matrix (Fin d) (Fin d) ℂ, IsPOVM M ∧ exclusionValue ρ p M = v}
+
+/-- **The minimum is attained.**  For every ensemble of `k ≥ 1` operators (no assumption on `ρ`, `p`) some
+measurement has an exclusion value below that of every other measurement: the set of POVMs is compact and the
+value is continuous.  So "the minimum of `Σ_i p_i Tr(ρ_i M_i)` over POVMs" exists and is a value of a POVM. -/
+theorem excl_min_attained (ρ : Fin k → Matrix (Fin d) (Fin d) ℂ) (p : Fin k → ℝ) (hk : 0 < k) :
+    ∃ M : Fin k → Matrix (Fin d) (Fin d) ℂ, IsPOVM M ∧
+      ∀ M' : Fin k → Matrix (Fin d) (Fin d) ℂ, IsPOVM M' → exclusionValue ρ p M ≤ exclusionValue ρ p M' := by
+  have : Nonempty (Fin k) := ⟨⟨0, hk⟩⟩
+  obtain ⟨M, hM, hmin⟩ := excl_min_attained_gen ρ p
+  exact ⟨M, hM, fun M' hM' => hmin M' hM'.1 hM'.2⟩
+
+/-- The set of attained exclusion values has a least element (for `k ≥ 1`). -/
+theorem excl_values_has_least (ρ : Fin k → Matrix (Fin d) (Fin d) ℂ) (p : Fin k → ℝ) (hk : 0 < k) :
+    ∃ v, IsLeast (exclValues ρ p) v := by
+  obtain ⟨M, hM, hmin⟩ := excl_min_attained ρ p hk
+  refine ⟨exclusionValue ρ p M, ⟨M, hM, rfl⟩, ?_⟩
+  rintro v ⟨M', hM', rfl⟩
+  exact hmin M' hM'
+
+/-- **Zero exactly for antidistinguishable sets.**  For PSD states and positive weights, if `v` is the minimum
+of the attained exclusion values then the states are antidistinguishable iff `v = 0`. -/
+theorem antidist_iff_min_eq_zero (ρ : Fin k → Matrix (Fin d) (Fin d) ℂ) (p : Fin k → ℝ)
+    (hρ : ∀ i, (ρ i).PosSemidef) (hp : ∀ i, 0 < p i) (v : ℝ) (hv : IsLeast (exclValues ρ p) v) :
+    IsAntidistinguishable ρ ↔ v = 0 := by
+  rw [antidist_iff_zero ρ p hρ hp]
+  constructor
+  · rintro ⟨M, hM, h0⟩
+    obtain ⟨M', hM', hv'⟩ := hv.1
+    have h1 : v ≤ 0 := hv.2 ⟨M, hM, h0⟩
+    have h2 : 0 ≤ v := by rw [← hv']; exact excl_nonneg ρ p M' hρ (fun i => (hp i).le) hM'
+    linarith
+  · rintro rfl
+    exact hv.1
+
+/-- **Positive otherwise.**  For `k ≥ 1` PSD states with positive weights that are *not* antidistinguishable
+there is a constant `c > 0` below the exclusion value of every measurement: the minimum is strictly positive. -/
+theorem excl_pos_of_not_antidist (ρ : Fin k → Matrix (Fin d) (Fin d) ℂ) (p : Fin k → ℝ) (hk : 0 < k)
+    (hρ : ∀ i, (ρ i).PosSemidef) (hp : ∀ i, 0 < p i) (hna : ¬ IsAntidistinguishable ρ) :
+    ∃ c : ℝ, 0 < c ∧ ∀ M : Fin k → Matrix (Fin d) (Fin d) ℂ, IsPOVM M → c ≤ exclusionValue ρ p M := by
+  obtain ⟨M, hM, hmin⟩ := excl_min_attained ρ p hk
+  refine ⟨exclusionValue ρ p M, ?_, hmin⟩
+  rcases (excl_nonneg ρ p M hρ (fun i => (hp i).le) hM).lt_or_eq with h | h
+  · exact h
+  · exact absurd ((antidist_iff_zero ρ p hρ hp).mpr ⟨M, hM, h.symm⟩) hna
+
+/-! ## Relabelling, adding a state, dependence on the prior -/
+
+/-- Relabelling states, priors and measurement operators by the same permutation `σ` maps POVMs to POVMs and
+preserves the exclusion value. -/
+theorem excl_relabel_invariant (σ : Equiv.Perm (Fin k)) (ρ : Fin k → Matrix (Fin d) (Fin d) ℂ)
+    (p : Fin k → ℝ) (M : Fin k → Matrix (Fin d) (Fin d) ℂ) (hM : IsPOVM M) :
+    IsPOVM (M ∘ σ) ∧ exclusionValue (ρ ∘ σ) (p ∘ σ) (M ∘ σ) = exclusionValue ρ p M := by
+  refine ⟨⟨fun i => hM.1 (σ i), ?_⟩, ?_⟩
+  · rw [← hM.2]
+    exact Equiv.sum_comp σ M
+  · unfold exclusionValue
+    exact Equiv.sum_comp σ fun i => p i * (ρ i * M i).trace.re
+
+/-- **Relabelling invariance of the value.**  The relabelled ensemble `(ρ ∘ σ, p ∘ σ)` attains the same set of
+exclusion values as `(ρ, p)`; in particular the minima agree. -/
+theorem excl_values_relabel_invariant (σ : Equiv.Perm (Fin k))
+    (ρ : Fin k → Matrix (Fin d) (Fin d) ℂ) (p : Fin k → ℝ) :
+    exclValues (ρ ∘ σ) (p ∘ σ) = exclValues ρ p := by
+  ext v
+  constructor
+  · rintro ⟨M, hM, hv⟩
+    obtain ⟨hM', hv'⟩ := excl_relabel_invariant σ⁻¹ (ρ ∘ σ) (p ∘ σ) M hM
+    have e1 : (ρ ∘ σ) ∘ ⇑σ⁻¹ = ρ := by funext i; simp
+    have e2 : (p ∘ σ) ∘ ⇑σ⁻¹ = p := by funext i; simp
+    rw [e1, e2] at hv'
+    exact ⟨M ∘ ⇑σ⁻¹, hM', hv'.trans hv⟩
+  · rintro ⟨M, hM, hv⟩
+    obtain ⟨hM', hv'⟩ := excl_relabel_invariant σ ρ p M hM
+    exact ⟨M ∘ σ, hM', hv'.trans hv⟩
+
+/-- **Adding a state cannot increase the value.**  Every value attained on the first `k` states of an ensemble of
+`k + 1` states is attained on the whole ensemble (never announce the additional state: `M_{k} = 0`); hence the
+minimum over the larger ensemble is at most the minimum over the smaller one. -/
+theorem excl_add_state (ρ : Fin (k + 1) → Matrix (Fin d) (Fin d) ℂ) (p : Fin (k + 1) → ℝ) :
+    exclValues (fun i : Fin k => ρ i.castSucc) (fun i : Fin k => p i.castSucc) ⊆ exclValues ρ p := by
+  rintro v ⟨M, hM, rfl⟩
+  refine ⟨Fin.snoc (α := fun _ => Matrix (Fin d) (Fin d) ℂ) M 0,
+    ⟨snoc_povm_psd M hM.1, by rw [snoc_povm_sum, hM.2]⟩, ?_⟩
+  exact snoc_povm_value ρ p M
+
+/-- The exclusion value of a fixed measurement is affine in the prior. -/
+theorem excl_prior_affine (ρ : Fin k → Matrix (Fin d) (Fin d) ℂ) (p q : Fin k → ℝ) (t : ℝ)
+    (M : Fin k → Matrix (Fin d) (Fin d) ℂ) :
+    exclusionValue ρ (fun i => t * p i + (1 - t) * q i) M
+      = t * exclusionValue ρ p M + (1 - t) * exclusionValue ρ q M := by
+  unfold exclusionValue
+  rw [Finset.mul_sum, Finset.mul_sum, ← Finset.sum_add_distrib]
+  exact Finset.sum_congr rfl fun i _ => by ring
+
+/-- **Concavity in the prior.**  If `a` is a lower bound of the values for the prior `p` and `b` one for the
+prior `q`, then `t a + (1 − t) b` is a lower bound for the mixed prior `t p + (1 − t) q` (`0 ≤ t ≤ 1`): the
+minimum is a concave function of the prior. -/
+theorem excl_prior_concave (ρ : Fin k → Matrix (Fin d) (Fin d) ℂ) (p q : Fin k → ℝ) (t a b : ℝ)
+    (ht0 : 0 ≤ t) (ht1 : t ≤ 1)
+    (ha : ∀ M : Fin k → Matrix (Fin d) (Fin d) ℂ, IsPOVM M → a ≤ exclusionValue ρ p M)
+    (hb : ∀ M : Fin k → Matrix (Fin d) (Fin d) ℂ, IsPOVM M → b ≤ exclusionValue ρ q M)
+    (M : Fin k → Matrix (Fin d) (Fin d) ℂ) (hM : IsPOVM M) :
+    t * a + (1 - t) * b ≤ exclusionValue ρ (fun i => t * p i + (1 - t) * q i) M := by
+  rw [excl_prior_affine]
+  exact add_le_add (mul_le_mul_of_nonneg_left (ha M hM) ht0)
+    (mul_le_mul_of_nonneg_left (hb M hM) (sub_nonneg.mpr ht1))
+
+/-! ## Families with an explicit optimal measurement or dual point (all sizes, all parameters) -/
+
+/-- **An orthogonal pair makes the whole set antidistinguishable.**  If two of the (Hermitian) states are
+orthogonal, `ρ_a ρ_b = 0` with `a ≠ b`, then answering `a` on the support of `ρ_b` and `b` off it never names the
+prepared state – whatever the other states are (BB84 subsets containing `{|0⟩,|1⟩}` or `{|+⟩,|−⟩}`, Bell states,
+any set of mutually orthogonal states). -/
+theorem antidist_of_orthogonal_pair (ρ : Fin k → Matrix (Fin d) (Fin d) ℂ) (a b : Fin k) (hab : a ≠ b)
+    (hb : (ρ b).IsHermitian) (hO : ρ a * ρ b = 0) : IsAntidistinguishable ρ :=
+  ⟨pairPovm ρ a b, ⟨pairPovm_psd ρ a b hb, pairPovm_sum ρ a b⟩, fun i => by
+    rw [pairPovm_mul ρ a b hab hb hO i, Matrix.trace_zero]⟩
+
+/-- Consequently the minimum-error exclusion value of an ensemble containing an orthogonal pair is exactly `0`
+for every prior `p ≥ 0` (PSD states): `0` is attained and nothing is below it. -/
+theorem excl_orthogonal_pair_isLeast (ρ : Fin k → Matrix (Fin d) (Fin d) ℂ) (p : Fin k → ℝ) (a b : Fin k)
+    (hab : a ≠ b) (hρ : ∀ i, (ρ i).PosSemidef) (hp : ∀ i, 0 ≤ p i) (hO : ρ a * ρ b = 0) :
+    IsLeast (exclValues ρ p) 0 := by
+  obtain ⟨M, hM, h0⟩ := antidist_of_orthogonal_pair ρ a b hab (hρ b).isHermitian hO
+  refine ⟨⟨M, hM, ?_⟩, ?_⟩
+  · exact (excl_eq_zero_iff ρ p M hρ hp hM).mpr fun i _ => h0 i
+  · rintro v ⟨M', hM', rfl⟩
+    exact excl_nonneg ρ p M' hρ hp hM'
+
+/-- **Two states are antidistinguishable iff they are orthogonal.**  For PSD `ρ_0`, `ρ_1`: some two-outcome
+measurement never names the prepared state iff `ρ_0 ρ_1 = 0`.  (If `tr(ρ_0 M_0) = tr(ρ_1 M_1) = 0` then
+`ρ_0 M_0 = ρ_1 M_1 = 0`, so `ρ_1 = ρ_1 M_0` and `ρ_1 ρ_0 = ρ_1 M_0 ρ_0 = 0`.) -/
+theorem antidist_two_iff_orthogonal (ρ : Fin 2 → Matrix (Fin d) (Fin d) ℂ) (hρ : ∀ i, (ρ i).PosSemidef) :
+    IsAntidistinguishable ρ ↔ ρ 0 * ρ 1 = 0 := by
+  rw [← two_perfect_iff (ρ 0) (ρ 1) (hρ 0) (hρ 1)]
+  constructor
+  · rintro ⟨M, hM, h0⟩
+    exact ⟨M 0, M 1, hM.1 0, hM.1 1, by rw [← hM.2, Fin.sum_univ_two], h0 0, h0 1⟩
+  · rintro ⟨M0, M1, h0, h1, hs, t0, t1⟩
+    refine ⟨![M0, M1], ⟨fun i => ?_, by rw [Fin.sum_univ_two]; exact hs⟩, fun i => ?_⟩
+    · fin_cases i
+      · exact h0
+      · exact h1
+    · fin_cases i
+      · exact t0
+      · exact t1
+
+/-- Two pure states `v vᴴ`, `w wᴴ` are antidistinguishable iff `⟨v, w⟩ = 0` (so the BB84 pairs `{|0⟩,|1⟩}`,
+`{|+⟩,|−⟩}` are, the pairs `{|0⟩,|+⟩}` etc. are not, and `pusey_barrett_rudolph(1, θ)` is iff
+`cos²(θ/2) = sin²(θ/2)`). -/
+theorem antidist_two_pure_iff (v w : Fin d → ℂ) :
+    IsAntidistinguishable ![pure v, pure w] ↔ star v ⬝ᵥ w = 0 := by
+  rw [antidist_two_iff_orthogonal _ (fun i => by fin_cases i <;> exact pure_psd _)]
+  show pure v * pure w = 0 ↔ _
+  constructor
+  · intro h
+    have h1 := pure_trace_mul v w
+    rw [h, Matrix.trace_zero] at h1
+    have h2 : star w ⬝ᵥ v = (starRingEnd ℂ) (star v ⬝ᵥ w) := Matrix.star_dotProduct w v
+    rw [h2, Complex.mul_conj] at h1
+    have : Complex.normSq (star v ⬝ᵥ w) = 0 := by exact_mod_cast h1.symm
+    exact Complex.normSq_eq_zero.mp this
+  · exact pure_mul_eq_zero v w
+
+/-- **Projectors that sum to a multiple of the identity.**  If every state is a projector (`ρ_i² = ρ_i`,
+Hermitian; e.g. a normalised pure state) and `Σ_i ρ_i = λ·1` with `λ < k`, then `M_i = (1 − ρ_i)/(k − λ)` is a
+POVM with `ρ_i M_i = 0`: the set is antidistinguishable.  Covers the trine (`λ = 3/2`), the four BB84 states
+(`λ = 2`), the four Bell states and every orthonormal basis with `k ≥ 2` (`λ = 1`), mutually unbiased bases, … -/
+theorem antidist_of_projector_frame (ρ : Fin k → Matrix (Fin d) (Fin d) ℂ) (lam : ℝ) (hlam : lam < k)
+    (hH : ∀ i, (ρ i).IsHermitian) (hI : ∀ i, ρ i * ρ i = ρ i)
+    (hS : ∑ i, ρ i = (lam : ℂ) • (1 : Matrix (Fin d) (Fin d) ℂ)) : IsAntidistinguishable ρ := by
+  have hl : lam < Fintype.card (Fin k) := by simpa using hlam
+  exact ⟨framePovm ρ lam, ⟨framePovm_psd ρ lam hl hH hI, framePovm_sum ρ lam hl hS⟩, fun i => by
+    rw [framePovm_mul ρ lam hI i, Matrix.trace_zero]⟩
+
+/-- **The trine states are antidistinguishable.**  The three vectors built by the model `trineStates` of
+toqito's `trine()` (`e_0`, `−½(e_0 + r e_1)`, `−½(e_0 − r e_1)`) with any real `r`, `r² = 3` (the code uses
+`np.sqrt(3)`), as projectors `v vᴴ`, are unit vectors whose projectors sum to `(3/2)·1`. -/
+theorem trine_antidistinguishable (r : ℝ) (hr : r * r = 3) :
+    IsAntidistinguishable fun b : Fin 3 => pure (trineVec (1 / 2) r b) := by
+  have e : trineVec (1 / 2) r = trineV (1 / 2) r := by
+    rw [trineVec_eq]; unfold trineV; push_cast; rfl
+  rw [e]
+  refine antidist_of_projector_frame _ (3 / 2) (by norm_num) (fun i => pure_isHermitian _)
+    (fun i => pure_idem _ (trine_unit r hr i)) (trine_frame r hr)
+
+/-- **Pusey–Barrett–Rudolph states, `n = 2`.**  The four product states built by the model `pbrStates 2 c s` of
+toqito's `pusey_barrett_rudolph(2, θ)` (`c = cos(θ/2)`, `s = sin(θ/2)`; any real `c`, `s`) are antidistinguishable
+whenever a phase `w` (`|w| = 1`) satisfies `c² − s² + 2cs·Re w = 0`: the orthonormal basis
+`ξ_b = D_b·½(1, w, w̄, −1)` (`D_b` the sign pattern of `ψ_b`) has `⟨ξ_b, ψ_b⟩ = 0`.  For `w = −1` this is the
+critical angle `c² − 2cs − s² = 0`, i.e. `tan(θ/2) = √2 − 1`, with the original (real) PBR measurement. -/
+theorem pbr2_antidistinguishable (c s : ℝ) (w : ℂ) (hw : w * (starRingEnd ℂ) w = 1)
+    (h : c * c - s * s + 2 * (c * s) * w.re = 0) :
+    IsAntidistinguishable fun b : Fin (2 ^ 2) => pure (pbrVec 2 c s b) := by
+  have e : pbrVec 2 c s = pbrV c s := by rw [pbrVec_two]; rfl
+  rw [e]
+  refine ⟨fun b => pure (pbrXi w b), ⟨fun b => pure_psd _, pbrXi_sum w hw⟩, fun b => ?_⟩
+  rw [pure_trace_mul]
+  have h0 := pbrXi_orth c s w h b
+  have : star (pbrV c s b) ⬝ᵥ pbrXi w b = (starRingEnd ℂ) (star (pbrXi w b) ⬝ᵥ pbrV c s b) :=
+    Matrix.star_dotProduct _ _
+  rw [this, h0]; simp
+
+/-- **PBR states, `n = 2`, the whole antidistinguishable range.**  For every angle `π/4 ≤ θ ≤ 3π/4` – that is
+`tan(θ/2) ≥ √2 − 1 = 2^{1/2} − 1`, the threshold quoted for `n = 2` – the four states of
+`pusey_barrett_rudolph(2, θ)` are antidistinguishable. -/
+theorem pbr2_antidistinguishable_angle (θ : ℝ) (h1 : Real.pi / 4 ≤ θ) (h2 : θ ≤ 3 * Real.pi / 4) :
+    IsAntidistinguishable fun b : Fin (2 ^ 2) =>
+      pure (pbrVec 2 (Real.cos (θ / 2)) (Real.sin (θ / 2)) b) := by
+  have hsin : 0 < Real.sin θ := Real.sin_pos_of_pos_of_lt_pi (by linarith [Real.pi_pos]) (by linarith [Real.pi_pos])
+  have hcs : Real.cos (θ / 2) * Real.sin (θ / 2) ≠ 0 := by
+    have := two_cos_half_sin_half θ
+    intro h0; rw [h0] at this; linarith
+  have habs : |Real.cos (θ / 2) * Real.cos (θ / 2) - Real.sin (θ / 2) * Real.sin (θ / 2)|
+      ≤ 2 * |Real.cos (θ / 2) * Real.sin (θ / 2)| := by
+    have e2 : 2 * |Real.cos (θ / 2) * Real.sin (θ / 2)| = |2 * (Real.cos (θ / 2) * Real.sin (θ / 2))| := by
+      rw [abs_mul 2, abs_two]
+    rw [cos_half_sq_sub, e2, two_cos_half_sin_half, abs_of_pos hsin]
+    exact abs_cos_le_sin θ h1 h2
+  obtain ⟨w, hw, h⟩ := pbr_phase_exists _ _ hcs habs
+  exact pbr2_antidistinguishable _ _ w hw h
+
+/-- **PBR states, `n = 1`.**  The two states `(c, s)`, `(c, −s)` of `pusey_barrett_rudolph(1, θ)` are
+antidistinguishable iff `c² = s²` (for `θ ∈ [0, π/2]`: iff `θ = π/2`, i.e. `tan(θ/2) ≥ 2^{1/1} − 1 = 1`). -/
+theorem pbr1_antidist_iff (c s : ℝ) :
+    IsAntidistinguishable (fun b : Fin (2 ^ 1) => pure (pbrVec 1 c s b)) ↔ c * c = s * s := by
+  have e : (fun b : Fin (2 ^ 1) => pure (pbrVec 1 c s b))
+      = ![pure ![(c : ℂ), s], pure ![(c : ℂ), -s]] := by
+    funext b
+    fin_cases b
+    · show pure (pbrVec 1 c s 0) = pure ![(c : ℂ), s]
+      congr 1; funext i; fin_cases i <;>
+        simp [pbrVec, listVec, pbrStates, binaryStrings, tensorVecs, pbrPsi]
+    · show pure (pbrVec 1 c s 1) = pure ![(c : ℂ), -s]
+      congr 1; funext i; fin_cases i <;>
+        simp [pbrVec, listVec, pbrStates, binaryStrings, tensorVecs, pbrPsi]
+  rw [e]
+  refine (antidist_two_pure_iff ![(c : ℂ), s] ![(c : ℂ), -s]).trans ?_
+  simp only [dotProduct, Fin.sum_univ_two, Pi.star_apply, Matrix.cons_val_zero, Matrix.cons_val_one]
+  simp only [RCLike.star_def, Complex.conj_ofReal]
+  constructor
+  · intro h
+    have : ((c * c - s * s : ℝ) : ℂ) = 0 := by push_cast; linear_combination h
+    have := Complex.ofReal_eq_zero.mp this
+    linarith
+  · intro h
+    have : ((c * c - s * s : ℝ) : ℂ) = 0 := by rw [h]; simp
+    push_cast at this; linear_combination this
+
+/-- **Identical states: the value is the smallest prior.**  If all states equal the PSD operator `ρ_j` and `p_j`
+is the smallest weight, then `Y = p_j ρ_j` is dual feasible and "always answer `j`" attains `Re tr Y`: the
+minimum-error exclusion value is exactly `p_j · tr ρ_j` (primal and dual optimum coincide). -/
+theorem excl_identical_isLeast (ρ : Fin k → Matrix (Fin d) (Fin d) ℂ) (p : Fin k → ℝ) (j : Fin k)
+    (hρ : (ρ j).PosSemidef) (hid : ∀ i, ρ i = ρ j) (hmin : ∀ i, p j ≤ p i) :
+    ExclDualFeasible ρ p ((p j : ℂ) • ρ j) ∧ IsLeast (exclValues ρ p) (p j * (ρ j).trace.re) := by
+  have hY : ExclDualFeasible ρ p ((p j : ℂ) • ρ j) := identical_dual_feasible ρ p j hρ hid hmin
+  refine ⟨hY, ⟨constPovm j, ⟨constPovm_psd j, constPovm_sum j⟩, ?_⟩, ?_⟩
+  · unfold exclusionValue
+    exact constPovm_value ρ p j
+  · rintro v ⟨M, hM, rfl⟩
+    have := excl_weak_duality ρ p M _ hM hY
+    rwa [Matrix.trace_smul, smul_eq_mul, Complex.re_ofReal_mul] at this
+
+/-- **Two states: closed form (one minus Helstrom).**  For two Hermitian states the greatest lower bound of the
+attained exclusion values is `½(p₀ tr ρ₀ + p₁ tr ρ₁) − ½‖p₀ρ₀ − p₁ρ₁‖₁` (trace norm in the max form of C13,
+`Toq.Metrics.traceNormV`): every two-outcome POVM is `((1+W)/2, (1−W)/2)` with a contraction `W`, and its value is
+`½(p₀ tr ρ₀ + p₁ tr ρ₁) + ½ Re tr(W (p₀ρ₀ − p₁ρ₁))`.  Together with `Toq.C10.helstrom_isLUB`: optimal exclusion
+error + optimal discrimination success `= p₀ tr ρ₀ + p₁ tr ρ₁` (`= 1` for normalised ensembles). -/
+theorem excl_two_isGLB (ρ : Fin 2 → Matrix (Fin d) (Fin d) ℂ) (p : Fin 2 → ℝ)
+    (hρ : ∀ i, (ρ i).IsHermitian) :
+    IsGLB (exclValues ρ p)
+      ((p 0 * (ρ 0).trace.re + p 1 * (ρ 1).trace.re) / 2
+        - Toq.Metrics.traceNormV ((p 0 : ℂ) • ρ 0 - (p 1 : ℂ) • ρ 1) / 2) := by
+  constructor
+  · rintro v ⟨M, hM, rfl⟩
+    have hs : M 0 + M 1 = 1 := by rw [← hM.2, Fin.sum_univ_two]
+    unfold exclusionValue
+    rw [Fin.sum_univ_two]
+    exact two_value_ge (ρ 0) (ρ 1) (M 0) (M 1) (p 0) (p 1) (hρ 0) (hρ 1) (hM.1 0) (hM.1 1) hs
+  · intro b hb
+    have h1 : ∀ x ∈ Toq.Metrics.tnSet ((p 0 : ℂ) • ρ 0 - (p 1 : ℂ) • ρ 1),
+        x ≤ 2 * ((p 0 * (ρ 0).trace.re + p 1 * (ρ 1).trace.re) / 2 - b) := by
+      rintro x ⟨W, hW, rfl⟩
+      have hmem : (p 0 * (ρ 0).trace.re + p 1 * (ρ 1).trace.re) / 2
+          - (W * ((p 0 : ℂ) • ρ 0 - (p 1 : ℂ) • ρ 1)).trace.re / 2 ∈ exclValues ρ p := by
+        refine ⟨![(1 / 2 : ℂ) • (1 - W), (1 / 2 : ℂ) • (1 + W)], ⟨fun i => ?_, ?_⟩, ?_⟩
+        · fin_cases i
+          · exact me_half_psd hW.1
+          · exact me_half_psd hW.2
+        · rw [Fin.sum_univ_two]
+          show (1 / 2 : ℂ) • (1 - W) + (1 / 2 : ℂ) • (1 + W) = 1
+          rw [add_comm]; exact me_half_sum W
+        · unfold exclusionValue
+          rw [Fin.sum_univ_two]
+          exact two_value_of_contraction (ρ 0) (ρ 1) W (p 0) (p 1)
+      have := hb hmem
+      linarith
+    have := csSup_le (Toq.Metrics.tnSet_nonempty _) h1
+    unfold Toq.Metrics.traceNormV
+    linarith
+
+/-- Two unit-trace Hermitian states with `p₀ + p₁ = 1`: the minimum-error exclusion value is
+`½ − ½‖p₀ρ₀ − p₁ρ₁‖₁`. -/
+theorem excl_two_isGLB_normalised (ρ : Fin 2 → Matrix (Fin d) (Fin d) ℂ) (p : Fin 2 → ℝ)
+    (hρ : ∀ i, (ρ i).IsHermitian) (htr : ∀ i, (ρ i).trace = 1) (hp : p 0 + p 1 = 1) :
+    IsGLB (exclValues ρ p)
+      (1 / 2 - Toq.Metrics.traceNormV ((p 0 : ℂ) • ρ 0 - (p 1 : ℂ) • ρ 1) / 2) := by
+  have := excl_two_isGLB ρ p hρ
+  rwa [htr, htr, Complex.one_re, mul_one, mul_one, hp] at this
+
+/-! ## Unambiguous exclusion: relation to the conclusive value, certificate checkers -/
+
+/-- **An unambiguous strategy is a conclusive one.**  Re-labelling the inconclusive outcome `1 − Σ_i M_i` of a
+feasible point of the unambiguous program as the answer `j` gives a POVM whose error probability is at most the
+probability of the inconclusive outcome.  Hence the unambiguous value is never below the minimum-error value
+(the harness check `unamb-ge-minerr`). -/
+theorem unamb_ge_min_error (ρ : Fin k → Matrix (Fin d) (Fin d) ℂ) (p : Fin k → ℝ)
+    (M : Fin k → Matrix (Fin d) (Fin d) ℂ) (j : Fin k) (hρ : ∀ i, (ρ i).PosSemidef) (hp : ∀ i, 0 ≤ p i)
+    (hM : UnambExclFeasible (fun i => (p i : ℂ) • ρ i) M) :
+    ∃ M' : Fin k → Matrix (Fin d) (Fin d) ℂ, IsPOVM M' ∧
+      exclusionValue ρ p M' ≤ ((∑ i, (p i : ℂ) • ρ i) * (1 - ∑ i, M i)).trace.re := by
+  refine ⟨absorbPovm M j, ⟨absorbPovm_psd M j hM.1 hM.2.1, absorbPovm_sum M j⟩, ?_⟩
+  have := absorbPovm_value_le (fun i => (p i : ℂ) • ρ i) M j (fun i => me_psd_smul (hρ i) (hp i))
+    hM.2.1 hM.2.2
+  unfold exclusionValue
+  simpa only [re_trace_smul_mul] using this
+
+/-- If the unambiguous primal checker accepts with value `hi`, the candidate is a feasible point of toqito's
+unambiguous-exclusion primal (one operator per state, `σ_i = p_i ρ_i`) whose objective
+`Re tr(S (1 − Σ_i M_i))` is exactly `hi`; hence `hi` is an upper bound of the unambiguous minimum. -/
+theorem checkUnambExclPrimal_sound (ens : Ensemble d) (M LM : List (EMat d d)) (LR : EMat d d) (hi : Rat)
+    (h : checkUnambExclPrimal ens M LM LR = some hi) :
+    ens.probs.length = ens.size ∧ M.length = ens.size ∧
+      UnambExclFeasible (fun i => (ensProbs ens i : ℂ) • ensStates ens i) (mats ens.size M) ∧
+      ((∑ i, (ensProbs ens i : ℂ) • ensStates ens i) * (1 - ∑ i, mats ens.size M i)).trace.re = (hi : ℝ) := by
+  unfold checkUnambExclPrimal at h
+  split at h
+  · next hl =>
+    obtain ⟨h1, h2, -⟩ := (lens3Ok_iff _ _ _ _).mp hl
+    obtain ⟨hp, hr, hz, hv⟩ := checkUnambExclPrimalFn_sound _ _ _ _ _ _ _ h
+    exact ⟨h1, h2, ⟨hp, hr, hz⟩, hv⟩
+  · exact absurd h (by simp)
+
+/-- If the unambiguous dual checker accepts with value `lo`, then `(N, a)` is feasible for toqito's
+unambiguous-exclusion dual, `lo = Re tr S − Re tr N`, and every primal-feasible `M'` has objective at least `lo`.
+(The code's own objective is `1 − Re tr N`; it equals `lo` exactly when `Re tr S = 1`, see
+`unamb_code_objective_eq`.) -/
+theorem checkUnambExclDual_sound (ens : Ensemble d) (N : EMat d d) (a : List Rat) (LN : EMat d d)
+    (LD : List (EMat d d)) (lo : Rat) (h : checkUnambExclDual ens N a LN LD = some lo) :
+    (UnambExclDualFeasible (fun i => (ensProbs ens i : ℂ) • ensStates ens i) N.toM
+        (fun i => ((ratAt a i : Rat) : ℝ)) ∧
+      (∑ i, (ensProbs ens i : ℂ) • ensStates ens i).trace.re - N.toM.trace.re = (lo : ℝ)) ∧
+      ∀ M' : Fin ens.size → Matrix (Fin d) (Fin d) ℂ,
+        UnambExclFeasible (fun i => (ensProbs ens i : ℂ) • ensStates ens i) M' →
+        (lo : ℝ) ≤ ((∑ i, (ensProbs ens i : ℂ) • ensStates ens i) * (1 - ∑ i, M' i)).trace.re := by
+  unfold checkUnambExclDual at h
+  split at h
+  · next hl =>
+    obtain ⟨hN, hD, hv⟩ := checkUnambExclDualFn_sound _ _ _ _ _ _ _ _ h
+    have hf : UnambExclDualFeasible (fun i => (ensProbs ens i : ℂ) • ensStates ens i) N.toM
+        (fun i => ((ratAt a i : Rat) : ℝ)) := ⟨hN, hD⟩
+    refine ⟨⟨hf, hv⟩, fun M' hM' => ?_⟩
+    rw [← hv]
+    exact unamb_excl_weak_duality _ M' N.toM _ hM' hf
+  · exact absurd h (by simp)
+
+/-- Accepted unambiguous dual and primal certificates bracket the unambiguous optimum: `lo ≤ hi`. -/
+theorem unamb_excl_lo_le_hi (ens : Ensemble d) (M LM : List (EMat d d)) (LR N : EMat d d) (a : List Rat)
+    (LN : EMat d d) (LD : List (EMat d d)) (lo hi : Rat)
+    (hhi : checkUnambExclPrimal ens M LM LR = some hi)
+    (hlo : checkUnambExclDual ens N a LN LD = some lo) : (lo : ℝ) ≤ (hi : ℝ) := by
+  obtain ⟨-, -, hM, hv⟩ := checkUnambExclPrimal_sound ens M LM LR hi hhi
+  rw [← hv]
+  exact (checkUnambExclDual_sound ens N a LN LD lo hlo).2 _ hM
+
+/-- The objective `1 − Re tr N` that `_unambiguous_dual` hands to the solver equals the certified bound
+`Re tr S − Re tr N` plus `1 − Re tr S`; the two agree exactly when `Re tr(Σ_i p_i ρ_i) = 1`. -/
+theorem unamb_code_objective_eq (ens : Ensemble d) (N : EMat d d) :
+    unambDualCodeObjective N
+      = unambDualBound ens.size (fun i => ens.state i) (fun i => ens.prob i) N
+        + (1 - (sumStates ens.size (fun i => ens.state i) (fun i => ens.prob i)).trace.re) :=
+  unambDualCodeObjective_eq _ _ _ _
+
+/-! ## Argument normalisation -/
+
+/-- The operator `to_density_matrix` builds from a vector is PSD (so `excl_nonneg` applies to ensembles given as
+vectors, exactly, whatever rounding the float normalisation of the vector suffered). -/
+theorem toDensityVec_psd (v : EMat d 1) : (toDensityVec v).toM.PosSemidef := by
+  unfold toDensityVec
+  rw [EMat.toM_mul, EMat.toM_ct]
+  exact Matrix.posSemidef_self_mul_conjTranspose _
+
+/-- `prepare` keeps the number of states, and the default prior `[1/n]*n` has `n` entries summing to `1`. -/
+theorem prepare_default (states : List (StateArg d)) (hn : states.length ≠ 0) :
+    (prepare states none).size = states.length ∧
+      (prepare states none).probs.length = states.length ∧ (prepare states none).probs.sum = 1 := by
+  refine ⟨by simp [prepare, Ensemble.size], by simp [prepare, defaultProbs], ?_⟩
+  have : (states.length : Rat) ≠ 0 := by exact_mod_cast hn
+  simp [prepare, defaultProbs, List.sum_replicate]
+  field_simp
+
+/-! ## What `is_antidistinguishable` and `common_quantum_overlap` do with the value -/
+
+/-- `np.isclose(v, 0)` with NumPy's default tolerances is the test `|v| ≤ 10⁻⁸`. -/
+theorem antidist_test_iff (v : Rat) : antidistTest v = true ↔ |v| ≤ 1 / 100000000 :=
+  antidistTest_iff v
+
+/-- `common_quantum_overlap` returns `n (1 − (1 − v/n)) = v`: the exclusion value for all-ones weights itself. -/
+theorem cqo_post_eq (n : Nat) (hn : n ≠ 0) (v : Rat) : cqoPost n v = v := cqoPost_eq n hn v
+
+/-- **The test decides antidistinguishability up to the solver's accuracy.**  Let `v⋆` be the minimum of the
+attained exclusion values for the all-ones weights (it exists: `excl_values_has_least`) and let the solver's value
+`v` satisfy `|v − v⋆| ≤ τ`.  Then: (1) if the states are antidistinguishable and `τ ≤ 10⁻⁸` the test answers
+`True`; (2) if the test answers `True` then `v⋆ ≤ 10⁻⁸ + τ`; so (3) states with `v⋆ > 10⁻⁸ + τ` are reported as
+not antidistinguishable. -/
+theorem antidist_test_decides (ρ : Fin k → Matrix (Fin d) (Fin d) ℂ) (hρ : ∀ i, (ρ i).PosSemidef)
+    (vstar : ℝ) (hv : IsLeast (exclValues ρ fun _ => 1) vstar) (v : Rat) (τ : ℝ)
+    (hclose : |(v : ℝ) - vstar| ≤ τ) :
+    (IsAntidistinguishable ρ → τ ≤ 1 / 100000000 → antidistTest v = true) ∧
+      (antidistTest v = true → vstar ≤ 1 / 100000000 + τ) ∧
+      (1 / 100000000 + τ < vstar → antidistTest v = false ∧ ¬ IsAntidistinguishable ρ) := by
+  have hiff := antidist_iff_min_eq_zero ρ (fun _ => 1) hρ (fun _ => one_pos) vstar hv
+  have hcast : antidistTest v = true ↔ |(v : ℝ)| ≤ 1 / 100000000 := by
+    rw [antidist_test_iff]
+    constructor
+    · intro h
+      have : ((|v| : Rat) : ℝ) ≤ ((1 / 100000000 : Rat) : ℝ) := by exact_mod_cast h
+      simpa using this
+    · intro h
+      have : ((|v| : Rat) : ℝ) ≤ ((1 / 100000000 : Rat) : ℝ) := by simpa using h
+      exact_mod_cast this
+  have h2 : antidistTest v = true → vstar ≤ 1 / 100000000 + τ := by
+    intro ht
+    have := hcast.mp ht
+    have h3 := abs_le.mp hclose
+    have h4 := abs_le.mp this
+    linarith
+  refine ⟨fun ha hτ => ?_, h2, fun hgt => ⟨?_, ?_⟩⟩
+  · have h0 := hiff.mp ha
+    rw [h0, sub_zero] at hclose
+    exact hcast.mpr (hclose.trans hτ)
+  · cases hb : antidistTest v
+    · rfl
+    · exact absurd (h2 hb) (not_le.mpr hgt)
+  · intro ha
+    rw [hiff.mp ha] at hgt
+    have : 0 ≤ τ := (abs_nonneg _).trans hclose
+    linarith
+
+/-! ## Further consequences -/
+
+/-- **Antidistinguishable sets have value exactly `0` for every prior.**  For PSD states and weights `p ≥ 0`:
+if the states are antidistinguishable, `0` is the least attained exclusion value (trine, BB84, Bell, PBR in
+the range of `pbr2_antidistinguishable_angle`, ensembles with an orthogonal pair, … with any prior). -/
+theorem excl_isLeast_zero_of_antidist (ρ : Fin k → Matrix (Fin d) (Fin d) ℂ) (p : Fin k → ℝ)
+    (hρ : ∀ i, (ρ i).PosSemidef) (hp : ∀ i, 0 ≤ p i) (ha : IsAntidistinguishable ρ) :
+    IsLeast (exclValues ρ p) 0 := by
+  obtain ⟨M, hM, h0⟩ := ha
+  refine ⟨⟨M, hM, (excl_eq_zero_iff ρ p M hρ hp hM).mpr fun i _ => h0 i⟩, ?_⟩
+  rintro v ⟨M', hM', rfl⟩
+  exact excl_nonneg ρ p M' hρ hp hM'
+
+/-- Antidistinguishability is invariant under a common unitary. -/
+theorem antidist_unitary_invariant (U : Matrix (Fin d) (Fin d) ℂ) (hU : U ∈ Matrix.unitaryGroup (Fin d) ℂ)
+    (ρ : Fin k → Matrix (Fin d) (Fin d) ℂ) :
+    IsAntidistinguishable (rot U ρ) ↔ IsAntidistinguishable ρ := by
+  have h1 : Uᴴ * U = 1 := by
+    simpa [Matrix.star_eq_conjTranspose] using Matrix.mem_unitaryGroup_iff'.mp hU
+  have hU' : Uᴴ ∈ Matrix.unitaryGroup (Fin d) ℂ := by
+    have := Unitary.star_mem hU
+    simpa [Matrix.star_eq_conjTranspose] using this
+  have h2 : Uᴴᴴ * Uᴴ = 1 := by
+    simpa [Matrix.star_eq_conjTranspose] using Matrix.mem_unitaryGroup_iff'.mp hU'
+  have hback : rot Uᴴ (rot U ρ) = ρ := by
+    funext i
+    exact conj_conj U (ρ i) h1
+  have key : ∀ (V : Matrix (Fin d) (Fin d) ℂ), V ∈ Matrix.unitaryGroup (Fin d) ℂ → Vᴴ * V = 1 →
+      ∀ σ : Fin k → Matrix (Fin d) (Fin d) ℂ, IsAntidistinguishable σ → IsAntidistinguishable (rot V σ) := by
+    intro V hV hV1 σ ⟨M, hM, h0⟩
+    refine ⟨rot V M, (excl_unitary_invariant V hV σ (fun _ => 1) M hM).1, fun i => ?_⟩
+    show ((V * σ i * Vᴴ) * (V * M i * Vᴴ)).trace = 0
+    rw [conj_trace_mul V (σ i) (M i) hV1]
+    exact h0 i
+  constructor
+  · intro h
+    have := key Uᴴ hU' h2 (rot U ρ) h
+    rwa [hback] at this
+  · exact key U hU h1 ρ
+
+/-- **Two states: the minimum in closed form.**  For two Hermitian states the least attained exclusion value – it
+exists by `excl_values_has_least` – *is* `½(p₀ tr ρ₀ + p₁ tr ρ₁) − ½‖p₀ρ₀ − p₁ρ₁‖₁`. -/
+theorem excl_two_isLeast (ρ : Fin 2 → Matrix (Fin d) (Fin d) ℂ) (p : Fin 2 → ℝ)
+    (hρ : ∀ i, (ρ i).IsHermitian) :
+    IsLeast (exclValues ρ p)
+      ((p 0 * (ρ 0).trace.re + p 1 * (ρ 1).trace.re) / 2
+        - Toq.Metrics.traceNormV ((p 0 : ℂ) • ρ 0 - (p 1 : ℂ) • ρ 1) / 2) := by
+  obtain ⟨v, hv⟩ := excl_values_has_least ρ p (by norm_num)
+  have := hv.isGLB.unique (excl_two_isGLB ρ p hρ)
+  rwa [this] at hv
+
+/-- Ensembles given as vectors are prepared as PSD operators: every state of `prepare (vs.map .vec) probs` is
+PSD, so `excl_nonneg` and `antidist_iff_zero` apply to them exactly. -/
+theorem prepare_vec_psd (vs : List (EMat d 1)) (probs : Option (List Rat))
+    (i : Fin (prepare (vs.map StateArg.vec) probs).size) :
+    (ensStates (prepare (vs.map StateArg.vec) probs) i).PosSemidef := by
+  unfold ensStates Ensemble.state prepare
+  simp only [List.map_map]
+  have hi : i.val < (vs.map (StateArg.density ∘ StateArg.vec)).length := by
+    have := i.isLt
+    simpa [prepare, Ensemble.size] using this
+  rw [List.getD_eq_getElem?_getD, List.getElem?_eq_getElem hi, Option.getD_some, List.getElem_map]
+  exact toDensityVec_psd _
+
+/-! ## When primal and dual agree: complementary slackness -/
+
+/-- **The duality gap.**  For operators `M_i` summing to the identity and any `Y`:
+`Σ_i p_i Re tr(ρ_i M_i) − Re tr Y = Σ_i Re tr((p_i ρ_i − Y) M_i)`; for a POVM and a dual-feasible `Y` every term on
+the right is non-negative. -/
+theorem excl_gap_eq (ρ : Fin k → Matrix (Fin d) (Fin d) ℂ) (p : Fin k → ℝ)
+    (M : Fin k → Matrix (Fin d) (Fin d) ℂ) (Y : Matrix (Fin d) (Fin d) ℂ) (hsum : ∑ i, M i = 1) :
+    exclusionValue ρ p M - Y.trace.re = ∑ i, (((p i : ℂ) • ρ i - Y) * M i).trace.re := by
+  have h2 : Y.trace = ∑ i, (Y * M i).trace := by
+    rw [← Matrix.trace_sum, ← Matrix.mul_sum, hsum, Matrix.mul_one]
+  unfold exclusionValue
+  rw [h2]
+  simp only [Matrix.sub_mul, Matrix.trace_sub, Complex.sub_re, Finset.sum_sub_distrib, Complex.re_sum,
+    re_trace_smul_mul]
+
+/-- **Primal and dual agree exactly under complementary slackness.**  For a POVM `M` and a dual-feasible `Y`:
+the value of `M` equals `Re tr Y` iff `(p_i ρ_i − Y) M_i = 0` for every `i`.  In that case `M` attains the minimum,
+`Y` attains the dual maximum, and the two optimal values coincide. -/
+theorem excl_primal_eq_dual_iff (ρ : Fin k → Matrix (Fin d) (Fin d) ℂ) (p : Fin k → ℝ)
+    (M : Fin k → Matrix (Fin d) (Fin d) ℂ) (Y : Matrix (Fin d) (Fin d) ℂ) (hM : IsPOVM M)
+    (hY : ExclDualFeasible ρ p Y) :
+    exclusionValue ρ p M = Y.trace.re ↔ ∀ i, ((p i : ℂ) • ρ i - Y) * M i = 0 := by
+  have hgap := excl_gap_eq ρ p M Y hM.2
+  have hnn : ∀ i ∈ Finset.univ, 0 ≤ ((((p i : ℂ) • ρ i - Y) * M i).trace.re) :=
+    fun i _ => psd_trace_mul_nonneg (hY i) (hM.1 i)
+  constructor
+  · intro h i
+    have h0 : ∑ i, (((p i : ℂ) • ρ i - Y) * M i).trace.re = 0 := by rw [← hgap, h, sub_self]
+    have hi := (Finset.sum_eq_zero_iff_of_nonneg hnn).mp h0 i (Finset.mem_univ i)
+    exact psd_mul_eq_zero_of_trace (hY i) (hM.1 i)
+      ((psd_trace_mul_re_eq_zero_iff (hY i) (hM.1 i)).mp hi)
+  · intro h
+    have h0 : ∑ i, (((p i : ℂ) • ρ i - Y) * M i).trace.re = 0 :=
+      Finset.sum_eq_zero fun i _ => by rw [h i]; simp
+    rw [h0] at hgap
+    linarith
+
+/-- **Optimality certificate.**  If a POVM `M` and a dual-feasible `Y` satisfy complementary slackness, then
+`Re tr Y` is the least attained exclusion value (attained by `M`) and no dual-feasible `Y'` has a larger trace. -/
+theorem excl_optimal_of_slackness (ρ : Fin k → Matrix (Fin d) (Fin d) ℂ) (p : Fin k → ℝ)
+    (M : Fin k → Matrix (Fin d) (Fin d) ℂ) (Y : Matrix (Fin d) (Fin d) ℂ) (hM : IsPOVM M)
+    (hY : ExclDualFeasible ρ p Y) (hs : ∀ i, ((p i : ℂ) • ρ i - Y) * M i = 0) :
+    IsLeast (exclValues ρ p) Y.trace.re ∧
+      ∀ Y' : Matrix (Fin d) (Fin d) ℂ, ExclDualFeasible ρ p Y' → Y'.trace.re ≤ Y.trace.re := by
+  have hv := (excl_primal_eq_dual_iff ρ p M Y hM hY).mpr hs
+  refine ⟨⟨⟨M, hM, hv⟩, ?_⟩, fun Y' hY' => ?_⟩
+  · rintro v ⟨M', hM', rfl⟩
+    exact excl_weak_duality ρ p M' Y hM' hY
+  · rw [← hv]
+    exact excl_weak_duality ρ p M Y' hM hY'
+
 /-! ## The checkers accept concrete instances
 
 * a genuinely complex rational antidistinguishable triple of qubit states (Bloch vectors `(3/5, 4/5, 0)`,
@@ -307,6 +893,61 @@ example : checkExclDual exEns (r2 (19/100) (3/25) (3/25) (-3/50))
 `Y ⪯ p_0 ρ_0` fails) -/
 example : checkExclDual ⟨exEns.states, [1/8, 7/8]⟩ (r2 (19/100) (3/25) (3/25) (-3/50))
     [r2 (11/20) 0 (-11/50) (1/10), r2 (6/25) 0 (27/50) (3/25)] = none := by decide +kernel
+
+/-- unambiguous exclusion of `|0⟩, |+⟩` with equal priors (optimum `1/√2 ≈ 0.7071`): `M_0 = ½|1⟩⟨1|`,
+`M_1 = ½|−⟩⟨−|` is feasible with inconclusive probability `3/4` … -/
+example : checkUnambExclPrimal exEns
+    [r2 0 0 0 (1/2), r2 (1/4) (-1/4) (-1/4) (1/4)] [r2 0 0 0 0, r2 0 0 0 0] (r2 0 0 0 0) = some (3/4) := by
+  decide +kernel
+
+/-- … and `N = (3/8)·1`, `a = (2, 2)` is dual feasible with bound `1 − 3/4 = 1/4` -/
+example : checkUnambExclDual exEns (r2 (3/8) 0 0 (3/8)) [2, 2] (r2 0 0 0 0)
+    [r2 (3/4) 0 (-1/3) 0, r2 (1/3) 0 (3/4) 0] = some (1/4) := by decide +kernel
+
+/-- an operator that is not orthogonal to its state (`M_0 = ½|0⟩⟨0|`) is rejected by the unambiguous checker -/
+example : checkUnambExclPrimal exEns
+    [r2 (1/2) 0 0 0, r2 (1/4) (-1/4) (-1/4) (1/4)] [r2 0 0 0 0, r2 0 0 0 0] (r2 0 0 0 0) = none := by
+  decide +kernel
+
+/-- the post-solve tests: `10⁻⁹` counts as zero, `2·10⁻⁸` does not; `common_quantum_overlap`'s formula is the identity -/
+example : antidistTest (1 / 1000000000) = true ∧ antidistTest (-1 / 1000000000) = true ∧
+    antidistTest (2 / 100000000) = false ∧ cqoPost 3 (2 / 7) = 2 / 7 := by decide +kernel
+
+/-- the hypotheses of `trine_antidistinguishable` hold for the number the code uses -/
+example : IsAntidistinguishable fun b : Fin 3 => pure (trineVec (1 / 2) (Real.sqrt 3) b) :=
+  trine_antidistinguishable _ (Real.mul_self_sqrt (by norm_num))
+
+/-- `pbr2_antidistinguishable` at the critical angle (`w = −1`, `c : s = (1 + √2) : 1`) -/
+example : IsAntidistinguishable fun b : Fin (2 ^ 2) => pure (pbrVec 2 (1 + Real.sqrt 2) 1 b) := by
+  refine pbr2_antidistinguishable _ _ (-1) (by simp) ?_
+  have h : Real.sqrt 2 * Real.sqrt 2 = 2 := Real.mul_self_sqrt (by norm_num)
+  simp only [Complex.neg_re, Complex.one_re]
+  nlinarith [h]
+
+/-- `pbr2_antidistinguishable_angle` at `θ = π/2` (the four states are then an orthonormal basis) -/
+example : IsAntidistinguishable fun b : Fin (2 ^ 2) =>
+    pure (pbrVec 2 (Real.cos (Real.pi / 2 / 2)) (Real.sin (Real.pi / 2 / 2)) b) :=
+  pbr2_antidistinguishable_angle _ (by linarith [Real.pi_pos]) (by linarith [Real.pi_pos])
+
+/-- `antidist_of_orthogonal_pair`: `|0⟩⟨0|`, `|1⟩⟨1|` and any third operator -/
+example (X : Matrix (Fin 2) (Fin 2) ℂ) :
+    IsAntidistinguishable ![!![1, 0; 0, 0], !![0, 0; 0, 1], X] := by
+  refine antidist_of_orthogonal_pair _ 0 1 (by decide) ?_ ?_
+  · ext i j; fin_cases i <;> fin_cases j <;> simp [Matrix.conjTranspose_apply]
+  · ext i j; fin_cases i <;> fin_cases j <;> simp [Matrix.mul_apply, Fin.sum_univ_two]
+
+/-- `antidist_of_projector_frame` for the four BB84 states `|0⟩, |1⟩, |+⟩, |−⟩` (`h = 1/√2`): the projectors sum to `2·1` -/
+example (h : ℝ) (hh : h * h = 1 / 2) :
+    IsAntidistinguishable fun b : Fin 4 =>
+      Excl.pure ((![![1, 0], ![0, 1], ![(h : ℂ), h], ![(h : ℂ), -h]] : Fin 4 → Fin 2 → ℂ) b) := by
+  have hh' : (h : ℂ) * h = 1 / 2 := by rw [← Complex.ofReal_mul, hh]; norm_num
+  refine antidist_of_projector_frame _ 2 (by norm_num) (fun i => pure_isHermitian _) (fun i => ?_) ?_
+  · refine pure_idem _ ?_
+    fin_cases i <;> simp [dotProduct, Fin.sum_univ_two] <;> linear_combination (2 : ℂ) * hh'
+  · ext i j
+    fin_cases i <;> fin_cases j <;>
+      simp [Excl.pure, Matrix.vecMulVec_apply, Fin.sum_univ_four, Matrix.sum_apply] <;>
+      first | ring1 | linear_combination (2 : ℂ) * hh'
 
 end Examples
 
